@@ -2,7 +2,7 @@
 # tools/seed_eval.sh <ID> [props...]: confirm a seeded change (tests pass, demo fails with / passes without),
 # run the checks against it, file it under seeded/<ID>/.
 ID=$1; shift; PROPS=${*:-$ID}
-SRC=/tmp/seedout/$ID; DST=/verif/seeded/$ID
+SRC=${SEEDSRC:-/tmp/seedout}/$ID; DST=/verif/seeded/${SEEDNAME:-$ID}
 [ -f $SRC/patch.diff ] || { echo "no patch for $ID"; exit 2; }
 mkdir -p $DST
 WT=$(mktemp -d /tmp/gtirbverif-sv-XXXX); rmdir $WT
@@ -24,11 +24,11 @@ done
 python3 - "$ID" "$T" "$RC0" "$RC1" "[${RES%,}]" <<'PY'
 import json, sys, os
 i, t, rc0, rc1, res = sys.argv[1:6]
-notes = open('/tmp/seedout/%s/notes.md' % i).read() if os.path.exists('/tmp/seedout/%s/notes.md' % i) else ''
+src = os.environ.get('SEEDSRC', '/tmp/seedout'); notes = open('%s/%s/notes.md' % (src, i)).read() if os.path.exists('%s/%s/notes.md' % (src, i)) else ''
 meta = {"property": i, "breaks": i, "needs_to_manifest": notes[:1500],
         "confirmed": {"repo_tests_on_seeded_tree": t, "demo_rc_clean_tree": int(rc0), "demo_rc_seeded_tree": int(rc1)},
         "ran": ["/tmp/seedtools/runtests.sh <worktree with patch>", "rundemo.sh /repo demo.py", "rundemo.sh <worktree> demo.py",
                 "tools/with_patch.sh patch.diff <property> quick"],
         "checks": json.loads(res)}
-json.dump(meta, open('/verif/seeded/%s/meta.json' % i, 'w'), indent=1)
+json.dump(meta, open('/verif/seeded/%s/meta.json' % os.environ.get('SEEDNAME', i), 'w'), indent=1)
 PY
